@@ -162,6 +162,8 @@ type CertSpec struct {
 	SelfSignKey         crypto.Signer // if set: a genuinely self-signed certificate with this key
 	KeyUsage            stdx509.KeyUsage
 	Serial              int64
+	OCSP                []string // authorityInfoAccess: id-ad-ocsp URIs
+	CAIssuers           []string // authorityInfoAccess: id-ad-caIssuers URIs
 }
 
 // BuildCert creates DER with the Go standard library and returns it.
@@ -201,6 +203,8 @@ func BuildCert(s CertSpec) ([]byte, error) {
 		BasicConstraintsValid: s.IsCA,
 		KeyUsage:              s.KeyUsage,
 		ExtraExtensions:       s.ExtraExt,
+		OCSPServer:            s.OCSP,
+		IssuingCertificateURL: s.CAIssuers,
 	}
 	parent := &stdx509.Certificate{Subject: iss, SerialNumber: big.NewInt(1)}
 	pub := s.PubKey
